@@ -10,6 +10,13 @@
    drainer, cancel and a blocked Publish would deadlock (BugNoDrainer).  Close clears the registry under the lock and
    closes the channels after releasing it (BugCloseKeepsMap: registry not cleared, so a later cancel closes again).
 
+   Subscription ids.  The registry is keyed by an id taken from the counter s.cnt (atomic.AddUint64 in Subscribe):
+   s.sub maps id -> subscription, s.chs[channel].sub maps id -> subscription per channel; cancel and Unsubscribe
+   remove BY ID (s.remove(id) unregisters whatever subscription is stored under the id, closes its channel and frees
+   the id).  The same counter is the "anybody subscribed at all?" flag of the lock-free fast path of Publish, Confirm
+   and Unsubscribe (cnt = 0: return at once).  Both uses rely on the counter never going down; BugCntDecr lets remove
+   give the id back ("one subscriber less"), after which a live subscription and a new one share an id.
+
    One action per lock region / channel operation. *)
 EXTENDS Integers, Sequences, FiniteSets, TLC
 
@@ -17,19 +24,30 @@ CONSTANTS Sub,          \* subscriber (Receive call) ids
           Chan,         \* channel names
           Topic,        \* Topic[s] \subseteq Chan: what subscriber s subscribes to
           BufCap, MaxMsgs, MaxUnsubs, MaxCloses,
-          BugNoDrainer, BugCloseKeepsMap
+          BugNoDrainer, BugCloseKeepsMap,
+          BugCntDecr    \* remove() decrements the counter that also generates the subscription ids
 
-VARIABLES reg,        \* reg[c]: set of subscribers registered for channel c;  the registry is "closed" when open = FALSE
-          open, alive,  \* alive: ids in s.sub
+VARIABLES sub,          \* s.sub: id -> subscriber (0: free)
+          reg,          \* s.chs: channel -> (id -> subscriber, 0: none)
+          cnt,          \* s.cnt
+          idOf,         \* the id a subscriber was given (captured by its cancel function); 0: none yet
+          open,         \* the registry is "closed" (s.chs = nil) when open = FALSE
           buf, chClosed, closes,   \* per subscriber: channel buffer, closed flag, number of close() calls on it
           rd, wr,       \* RWMutex: rd = number of read holders (only the reader goroutine takes it), wr = write holder (0 none)
           rpc, rmsg, rchan, rleft, \* reader goroutine: pc, message being published, its channel, subscribers still to send to
           spc, drain, got,  \* subscribers: pc, drainer started, messages the user callback received
-          nmsg, nunsub, nclose, sent   \* budgets; sent[s]: messages the reader put into s's channel
-vars == <<reg, open, alive, buf, chClosed, closes, rd, wr, rpc, rmsg, rchan, rleft, spc, drain, got, nmsg, nunsub, nclose, sent>>
+          nmsg, nunsub, nclose, sent    \* budgets; sent[s]: messages the reader put into s's channel
+vars == <<sub, reg, cnt, idOf, open, buf, chClosed, closes, rd, wr, rpc, rmsg, rchan, rleft, spc, drain, got, nmsg, nunsub, nclose, sent>>
 READER == -1
 
-Init == /\ reg = [c \in Chan |-> {}] /\ open = TRUE /\ alive = {}
+Ids == 1..Cardinality(Sub)
+NoIds == [i \in Ids |-> 0]
+Entries(f) == {i \in Ids : f[i] # 0}
+SubsOf(c) == {reg[c][i] : i \in Entries(reg[c])}       \* whom Publish(c) sends to
+RegEmpty(c) == Entries(reg[c]) = {}
+alive == {sub[i] : i \in Entries(sub)}                  \* the values of s.sub
+
+Init == /\ sub = NoIds /\ reg = [c \in Chan |-> NoIds] /\ cnt = 0 /\ idOf = [s \in Sub |-> 0] /\ open = TRUE
         /\ buf = [s \in Sub |-> <<>>] /\ chClosed = [s \in Sub |-> FALSE] /\ closes = [s \in Sub |-> 0]
         /\ rd = 0 /\ wr = 0
         /\ rpc = "idle" /\ rmsg = 0 /\ rchan = (CHOOSE c \in Chan : TRUE) /\ rleft = {}
@@ -39,68 +57,82 @@ Init == /\ reg = [c \in Chan |-> {}] /\ open = TRUE /\ alive = {}
 CloseCh(S) == /\ chClosed' = [s \in Sub |-> IF s \in S THEN TRUE ELSE chClosed[s]]
               /\ closes' = [s \in Sub |-> IF s \in S THEN closes[s] + 1 ELSE closes[s]]
 
+\* s.remove(id) for every id of I inside one lock region: the subscription stored under the id - whichever it is - is
+\* taken out of the channel maps of its own topics (under that id), its channel is closed, the id is freed
+Hit(I) == I \cap Entries(sub)
+Removed(I) == {sub[i] : i \in Hit(I)}
+RegAfter(I) == [c \in Chan |-> [i \in Ids |-> IF i \in Hit(I) /\ c \in Topic[sub[i]] THEN 0 ELSE reg[c][i]]]
+SubAfter(I) == [i \in Ids |-> IF i \in Hit(I) THEN 0 ELSE sub[i]]
+CntAfter(I) == IF BugCntDecr THEN cnt - Cardinality(Hit(I)) ELSE cnt
+
 \* ---- callers
-\* Subscribe: Lock; if registry open: make channel, register for every topic; Unlock
-Subscribe(s) == /\ spc[s] = "new" /\ wr = 0 /\ rd = 0
-                /\ IF open THEN /\ reg' = [c \in Chan |-> IF c \in Topic[s] THEN reg[c] \cup {s} ELSE reg[c]]
-                                /\ alive' = alive \cup {s} /\ spc' = [spc EXCEPT ![s] = "recv"]
-                           ELSE /\ UNCHANGED <<reg, alive>> /\ spc' = [spc EXCEPT ![s] = "done"]   \* ch == nil
-                /\ UNCHANGED <<open, buf, chClosed, closes, rd, wr, rpc, rmsg, rchan, rleft, drain, got, nmsg, nunsub, nclose, sent>>
+\* Subscribe: id := cnt + 1 (atomic add); Lock; if registry open: make channel, store it under the id, register it under the
+\* id for every topic; Unlock.  (SubscribeWith: trace validation passes the id the implementation used.)
+SubscribeWith(s, id) ==
+  /\ spc[s] = "new" /\ wr = 0 /\ rd = 0 /\ id \in Ids
+  /\ cnt' = cnt + 1
+  /\ IF open THEN /\ sub' = [sub EXCEPT ![id] = s]
+                  /\ reg' = [c \in Chan |-> IF c \in Topic[s] THEN [reg[c] EXCEPT ![id] = s] ELSE reg[c]]
+                  /\ idOf' = [idOf EXCEPT ![s] = id] /\ spc' = [spc EXCEPT ![s] = "recv"]
+             ELSE /\ UNCHANGED <<sub, reg, idOf>> /\ spc' = [spc EXCEPT ![s] = "done"]   \* ch == nil
+  /\ UNCHANGED <<open, buf, chClosed, closes, rd, wr, rpc, rmsg, rchan, rleft, drain, got, nmsg, nunsub, nclose, sent>>
+Subscribe(s) == SubscribeWith(s, cnt + 1)
 \* Receive's loop: msg, ok := <-ch
 RecvMsg(s) == /\ spc[s] = "recv" /\ buf[s] # <<>>
               /\ got' = [got EXCEPT ![s] = Append(@, Head(buf[s]))] /\ buf' = [buf EXCEPT ![s] = Tail(@)]
-              /\ UNCHANGED <<reg, open, alive, chClosed, closes, rd, wr, rpc, rmsg, rchan, rleft, spc, drain, nmsg, nunsub, nclose, sent>>
+              /\ UNCHANGED <<sub, reg, cnt, idOf, open, chClosed, closes, rd, wr, rpc, rmsg, rchan, rleft, spc, drain, nmsg, nunsub, nclose, sent>>
 \* the channel was closed (unsubscribe / connection loss) and drained: Receive ends and runs the deferred cancel
 RecvClosed(s) == /\ spc[s] = "recv" /\ buf[s] = <<>> /\ chClosed[s]
                  /\ spc' = [spc EXCEPT ![s] = "cancel"]
-                 /\ UNCHANGED <<reg, open, alive, buf, chClosed, closes, rd, wr, rpc, rmsg, rchan, rleft, drain, got, nmsg, nunsub, nclose, sent>>
+                 /\ UNCHANGED <<sub, reg, cnt, idOf, open, buf, chClosed, closes, rd, wr, rpc, rmsg, rchan, rleft, drain, got, nmsg, nunsub, nclose, sent>>
 \* the caller's context ended: Receive ends and runs the deferred cancel
 CtxDone(s) == /\ spc[s] = "recv" /\ spc' = [spc EXCEPT ![s] = "cancel"]
-              /\ UNCHANGED <<reg, open, alive, buf, chClosed, closes, rd, wr, rpc, rmsg, rchan, rleft, drain, got, nmsg, nunsub, nclose, sent>>
+              /\ UNCHANGED <<sub, reg, cnt, idOf, open, buf, chClosed, closes, rd, wr, rpc, rmsg, rchan, rleft, drain, got, nmsg, nunsub, nclose, sent>>
 \* cancel(): go func(){ for range ch {} }()
 StartDrainer(s) == /\ spc[s] = "cancel" /\ spc' = [spc EXCEPT ![s] = "cancelLock"]
                    /\ drain' = [drain EXCEPT ![s] = ~BugNoDrainer]
-                   /\ UNCHANGED <<reg, open, alive, buf, chClosed, closes, rd, wr, rpc, rmsg, rchan, rleft, got, nmsg, nunsub, nclose, sent>>
+                   /\ UNCHANGED <<sub, reg, cnt, idOf, open, buf, chClosed, closes, rd, wr, rpc, rmsg, rchan, rleft, got, nmsg, nunsub, nclose, sent>>
 Drain(s) == /\ drain[s] /\ buf[s] # <<>> /\ buf' = [buf EXCEPT ![s] = Tail(@)]
-            /\ UNCHANGED <<reg, open, alive, chClosed, closes, rd, wr, rpc, rmsg, rchan, rleft, spc, drain, got, nmsg, nunsub, nclose, sent>>
-\* cancel(): Lock; if s.chs != nil { remove(id) }; Unlock
+            /\ UNCHANGED <<sub, reg, cnt, idOf, open, chClosed, closes, rd, wr, rpc, rmsg, rchan, rleft, spc, drain, got, nmsg, nunsub, nclose, sent>>
+\* cancel(): Lock; if s.chs != nil { remove(id) }; Unlock   - id is the one captured at Subscribe
 CancelLocked(s) == /\ spc[s] = "cancelLock" /\ wr = 0 /\ rd = 0
-                   /\ IF open /\ s \in alive
-                      THEN /\ reg' = [c \in Chan |-> reg[c] \ {s}] /\ alive' = alive \ {s} /\ CloseCh({s})
-                      ELSE UNCHANGED <<reg, alive, chClosed, closes>>
+                   /\ IF open
+                      THEN LET I == {idOf[s]} IN
+                           /\ reg' = RegAfter(I) /\ sub' = SubAfter(I) /\ cnt' = CntAfter(I) /\ CloseCh(Removed(I))
+                      ELSE UNCHANGED <<reg, sub, cnt, chClosed, closes>>
                    /\ spc' = [spc EXCEPT ![s] = "done"]
-                   /\ UNCHANGED <<open, buf, rd, wr, rpc, rmsg, rchan, rleft, drain, got, nmsg, nunsub, nclose, sent>>
+                   /\ UNCHANGED <<idOf, open, buf, rd, wr, rpc, rmsg, rchan, rleft, drain, got, nmsg, nunsub, nclose, sent>>
 
 \* ---- the reader goroutine
-\* Publish(channel, msg): RLock; for each subscriber of the channel: sb.ch <- msg (may block); RUnlock
-PubBegin(c) == /\ rpc = "idle" /\ nmsg < MaxMsgs /\ wr = 0
+\* Publish(channel, msg): if cnt != 0 { RLock; for each subscriber of the channel: sb.ch <- msg (may block); RUnlock }
+PubBegin(c) == /\ rpc = "idle" /\ nmsg < MaxMsgs /\ wr = 0 /\ cnt # 0
                /\ nmsg' = nmsg + 1 /\ rmsg' = nmsg + 1 /\ rchan' = c
-               /\ rd' = rd + 1 /\ rleft' = reg[c] /\ rpc' = "pub"
-               /\ UNCHANGED <<reg, open, alive, buf, chClosed, closes, wr, spc, drain, got, nunsub, nclose, sent>>
-PubSend == /\ rpc = "pub" /\ rleft # {}
-           /\ \E s \in rleft : /\ Len(buf[s]) < BufCap
-                               /\ buf' = [buf EXCEPT ![s] = Append(@, rmsg)]
-                               /\ sent' = [sent EXCEPT ![s] = Append(@, rmsg)]
-                               /\ rleft' = rleft \ {s}
-           /\ UNCHANGED <<reg, open, alive, chClosed, closes, rd, wr, rpc, rmsg, rchan, spc, drain, got, nmsg, nunsub, nclose>>
+               /\ rd' = rd + 1 /\ rleft' = SubsOf(c) /\ rpc' = "pub"
+               /\ UNCHANGED <<sub, reg, cnt, idOf, open, buf, chClosed, closes, wr, spc, drain, got, nunsub, nclose, sent>>
+PubSendTo(s) == /\ rpc = "pub" /\ s \in rleft /\ Len(buf[s]) < BufCap
+                /\ buf' = [buf EXCEPT ![s] = Append(@, rmsg)]
+                /\ sent' = [sent EXCEPT ![s] = Append(@, rmsg)]
+                /\ rleft' = rleft \ {s}
+                /\ UNCHANGED <<sub, reg, cnt, idOf, open, chClosed, closes, rd, wr, rpc, rmsg, rchan, spc, drain, got, nmsg, nunsub, nclose>>
+PubSend == \E s \in rleft : PubSendTo(s)
 PubEnd == /\ rpc = "pub" /\ rleft = {} /\ rd' = rd - 1 /\ rpc' = "idle"
-          /\ UNCHANGED <<reg, open, alive, buf, chClosed, closes, wr, rmsg, rchan, rleft, spc, drain, got, nmsg, nunsub, nclose, sent>>
-\* Unsubscribe(channel): Lock; remove every subscriber of the channel (all its topics, close its channel); Unlock
-Unsub(c) == /\ rpc = "idle" /\ nunsub < MaxUnsubs /\ wr = 0 /\ rd = 0 /\ open
+          /\ UNCHANGED <<sub, reg, cnt, idOf, open, buf, chClosed, closes, wr, rmsg, rchan, rleft, spc, drain, got, nmsg, nunsub, nclose, sent>>
+\* Unsubscribe(channel): if cnt != 0 { Lock; remove(id) for every id registered for the channel; delete(chs, channel); Unlock }
+Unsub(c) == /\ rpc = "idle" /\ nunsub < MaxUnsubs /\ wr = 0 /\ rd = 0 /\ open /\ cnt # 0
             /\ nunsub' = nunsub + 1
-            /\ reg' = [d \in Chan |-> IF d = c THEN {} ELSE reg[d] \ reg[c]]
-            /\ alive' = alive \ reg[c] /\ CloseCh(reg[c])
-            /\ UNCHANGED <<open, buf, rd, wr, rpc, rmsg, rchan, rleft, spc, drain, got, nmsg, nclose, sent>>
+            /\ LET I == Entries(reg[c]) IN
+               /\ reg' = [RegAfter(I) EXCEPT ![c] = NoIds] /\ sub' = SubAfter(I) /\ cnt' = CntAfter(I) /\ CloseCh(Removed(I))
+            /\ UNCHANGED <<idOf, open, buf, rd, wr, rpc, rmsg, rchan, rleft, spc, drain, got, nmsg, nclose, sent>>
 \* Close(): Lock; take the subscriber map, clear the registry; Unlock ...
 CloseLocked == /\ rpc = "idle" /\ nclose < MaxCloses /\ wr = 0 /\ rd = 0 /\ open
                /\ nclose' = nclose + 1
                /\ open' = BugCloseKeepsMap /\ rleft' = alive
-               /\ IF BugCloseKeepsMap THEN UNCHANGED <<reg, alive>> ELSE reg' = [c \in Chan |-> {}] /\ alive' = {}
+               /\ IF BugCloseKeepsMap THEN UNCHANGED <<reg, sub>> ELSE reg' = [c \in Chan |-> NoIds] /\ sub' = NoIds
                /\ rpc' = "closing"
-               /\ UNCHANGED <<buf, chClosed, closes, rd, wr, rmsg, rchan, spc, drain, got, nmsg, nunsub, sent>>
+               /\ UNCHANGED <<cnt, idOf, buf, chClosed, closes, rd, wr, rmsg, rchan, spc, drain, got, nmsg, nunsub, sent>>
 \* ... then close every channel, outside the lock
 CloseChans == /\ rpc = "closing" /\ CloseCh(rleft) /\ rleft' = {} /\ rpc' = "idle"
-              /\ UNCHANGED <<reg, open, alive, buf, rd, wr, rmsg, rchan, spc, drain, got, nmsg, nunsub, nclose, sent>>
+              /\ UNCHANGED <<sub, reg, cnt, idOf, open, buf, rd, wr, rmsg, rchan, spc, drain, got, nmsg, nunsub, nclose, sent>>
 
 Next == \/ \E s \in Sub : Subscribe(s) \/ RecvMsg(s) \/ RecvClosed(s) \/ CtxDone(s) \/ StartDrainer(s) \/ Drain(s) \/ CancelLocked(s)
         \/ \E c \in Chan : PubBegin(c) \/ Unsub(c)
@@ -118,9 +150,15 @@ NoSendOnClosed == \A s \in Sub : (rpc = "pub" /\ s \in rleft) => ~chClosed[s]
 \* what the callback saw is a prefix of what was put into its channel: in order, no duplicates, nothing foreign
 IsPrefix(a, b) == Len(a) <= Len(b) /\ \A i \in 1..Len(a) : a[i] = b[i]
 InOrder == \A s \in Sub : IsPrefix(got[s], sent[s])
-\* a subscriber only gets messages of its topics -- sent[] is filled from reg[rchan] only, checked on the registry:
-OnlyOwnTopics == \A c \in Chan : \A s \in reg[c] : c \in Topic[s]
-RegistryConsistent == \A c \in Chan : reg[c] \subseteq alive
+\* a subscriber only gets messages of its topics -- sent[] is filled from the channel maps only, checked on the registry:
+OnlyOwnTopics == \A c \in Chan : \A i \in Entries(reg[c]) : c \in Topic[reg[c][i]]
+RegistryConsistent == \A c \in Chan : \A i \in Entries(reg[c]) : sub[i] = reg[c][i]
+\* a subscription that was made and whose channel has not been closed is still in the registry, under its own id, for all
+\* its topics: nobody else's Subscribe, cancel or unsubscribe takes it out (ids of live subscriptions are unique)
+LiveSubscribersRegistered ==
+  \A s \in Sub : (idOf[s] # 0 /\ ~chClosed[s] /\ open) =>
+                   /\ sub[idOf[s]] = s
+                   /\ \A c \in Topic[s] : reg[c][idOf[s]] = s
 \* the reader goroutine is never stuck for good: a blocked Publish is released (by the receiver or the drainer)
 ReaderProgress == (rpc = "pub") ~> (rpc = "idle")
 \* every Receive that started to cancel finishes, and every Receive ends after Close
